@@ -96,11 +96,15 @@ def crosshair_task(tier, seed):
             else:
                 part.d["queries"]["unknown"] += 1
                 part.d["inconclusive"].append(f"crosshair {n}: {msg[:120]}")
-        else:  # reachability twin: must be refuted
+        else:  # reachability twin: must be refuted (unless its condition itself failed: then the twin says nothing)
+            cond = "c_" + n[2:]
+            cond_confirmed = cond in seen and seen[cond][0] == "info" and "Confirmed over all paths" in seen[cond][1]
             if kind == "error" and "false when calling" in msg:
                 part.record(Q("unsat", None, 0.0, ""), f"crosshair twin {n}: refuted (condition body reachable, checker alive)")
+            elif cond_confirmed:
+                part.harness_error(f"reachability twin {n} was not refuted although {cond} was confirmed (vacuous?): {kind}: {msg[:160]}")
             else:
-                part.harness_error(f"reachability twin {n} was not refuted: {kind}: {msg[:160]}")
+                part.d["inconclusive"].append(f"crosshair twin {n}: not refuted, but {cond} itself is not confirmed")
     part.extra("crosshair_wall_s", round(dt, 1))
     part.sample({"tool": "crosshair 0.0.110", "per_condition_timeout": tmo, "verdicts": {k: v[1][:60] for k, v in sorted(seen.items())}})
     return part.d
